@@ -1,7 +1,712 @@
-//! C26 — not built yet.
-use vcore::Ctx;
+//! C26 — multipart/mixed subscription bodies are well framed.
+//!
+//! `create_multipart_mixed_stream` is driven with a harness-controlled input stream (`vcore::det::Chan`) and a
+//! manual heartbeat timer. A script is a sequence of events {response arrives, timer fires, input ends}, each
+//! followed by 0, k or "until pending" polls of the body stream. The oracle is an independent RFC 2046
+//! multipart reader (boundary `graphql`) plus a comparison of the parts with what the harness fed in.
+use async_graphql::http::create_multipart_mixed_stream;
+use async_graphql::runtime::Timer;
+use async_graphql::{ErrorExtensionValues, Name, PathSegment, Pos, Response, ServerError, Value as GValue};
+use bytes::Bytes;
+use futures_util::future::BoxFuture;
+use futures_util::stream::BoxStream;
+use futures_util::task::noop_waker;
+use indexmap::IndexMap;
+use serde_json::Value as Json;
+use std::future::Future;
+use std::pin::Pin;
+use std::sync::{Arc, Mutex};
+use std::task::{Context, Poll};
+use std::time::{Duration, Instant};
+use vcore::det::Chan;
+use vcore::gens::*;
+use vcore::{json, Case, Ctx, Src};
 
-pub fn run(_ctx: &mut Ctx) {
-    eprintln!("C26: check not built yet");
-    std::process::exit(2);
+// ---------------------------------------------------------------------------------------------------------
+// manual timer: every `delay()` arms a new generation at once (vcore::det::Gates registers a gate only on the
+// first poll, and `select!` may not poll the timer branch at all); `fire()` completes the armed generation.
+
+#[derive(Default)]
+struct TimerState {
+    armed: u64,
+    fired: u64,
+}
+#[derive(Clone, Default)]
+struct ManualTimer(Arc<Mutex<TimerState>>);
+struct Delay {
+    timer: ManualTimer,
+    generation: u64,
+}
+impl Timer for ManualTimer {
+    fn delay(&self, _: Duration) -> BoxFuture<'static, ()> {
+        let mut s = self.0.lock().unwrap();
+        s.armed += 1;
+        Box::pin(Delay { timer: self.clone(), generation: s.armed })
+    }
+}
+impl Future for Delay {
+    type Output = ();
+    fn poll(self: Pin<&mut Self>, _: &mut Context<'_>) -> Poll<()> {
+        // the harness polls explicitly after every event, so no waker is kept
+        if self.timer.0.lock().unwrap().fired >= self.generation {
+            Poll::Ready(())
+        } else {
+            Poll::Pending
+        }
+    }
+}
+impl ManualTimer {
+    /// complete the armed delay; false if it has already fired and no new delay was requested since
+    fn fire(&self) -> bool {
+        let mut s = self.0.lock().unwrap();
+        if s.fired < s.armed {
+            s.fired = s.armed;
+            true
+        } else {
+            false
+        }
+    }
+    /// a delay has completed and the stream has not asked for the next one yet
+    fn fired_unconsumed(&self) -> bool {
+        let s = self.0.lock().unwrap();
+        s.armed > 0 && s.fired == s.armed
+    }
+}
+
+// ---------------------------------------------------------------------------------------------------------
+// independent multipart/mixed reader (RFC 2046 §5.1.1, boundary "graphql")
+
+const DASH_BOUNDARY: &[u8] = b"--graphql";
+const DELIMITER: &[u8] = b"\r\n--graphql";
+
+struct Part {
+    headers: Vec<(String, String)>,
+    body: Vec<u8>,
+}
+
+fn find(hay: &[u8], needle: &[u8], from: usize) -> Option<usize> {
+    if hay.len() < needle.len() {
+        return None;
+    }
+    (from..=hay.len() - needle.len()).find(|i| &hay[*i..*i + needle.len()] == needle)
+}
+
+/// multipart-body := [preamble CRLF] dash-boundary padding CRLF body-part *(delimiter padding CRLF body-part)
+///                   close-delimiter padding [CRLF epilogue]
+/// Accepted here: empty preamble, no epilogue (the statement wants the closing delimiter to be last).
+fn read_multipart(buf: &[u8]) -> Result<Vec<Part>, String> {
+    let mut pos = 0;
+    if buf.starts_with(b"\r\n") {
+        pos = 2;
+    }
+    if !buf[pos..].starts_with(DASH_BOUNDARY) {
+        return Err(format!("body does not start with the dash-boundary (offset {})", pos));
+    }
+    let mut parts = vec![];
+    loop {
+        pos += DASH_BOUNDARY.len();
+        if buf[pos..].starts_with(b"--") {
+            pos += 2;
+            while pos < buf.len() && (buf[pos] == b' ' || buf[pos] == b'\t') {
+                pos += 1;
+            }
+            let rest = &buf[pos..];
+            if rest.is_empty() || rest == b"\r\n" {
+                return Ok(parts);
+            }
+            return Err(format!("{} bytes after the closing delimiter: {:?}", rest.len(), String::from_utf8_lossy(&rest[..rest.len().min(60)])));
+        }
+        while pos < buf.len() && (buf[pos] == b' ' || buf[pos] == b'\t') {
+            pos += 1;
+        }
+        if !buf[pos..].starts_with(b"\r\n") {
+            return Err(format!("boundary line at offset {} is not terminated by CRLF", pos));
+        }
+        pos += 2;
+        let mut headers = vec![];
+        loop {
+            let eol = find(buf, b"\r\n", pos).ok_or_else(|| format!("unterminated header line at offset {}", pos))?;
+            let line = &buf[pos..eol];
+            pos = eol + 2;
+            if line.is_empty() {
+                break;
+            }
+            let line = std::str::from_utf8(line).map_err(|_| "header line is not UTF-8".to_string())?;
+            let (name, value) = line.split_once(':').ok_or_else(|| format!("header line without colon: {:?}", line))?;
+            if name.is_empty() || !name.bytes().all(|b| b.is_ascii_graphic()) {
+                return Err(format!("bad header name {:?}", name));
+            }
+            headers.push((name.to_ascii_lowercase(), value.trim().to_string()));
+        }
+        let end = find(buf, DELIMITER, pos).ok_or_else(|| format!("part starting at offset {} is not followed by a delimiter", pos))?;
+        parts.push(Part { headers, body: buf[pos..end].to_vec() });
+        pos = end + 2;
+    }
+}
+
+/// A body that is still open is well framed so far if appending the closing delimiter makes it a complete
+/// multipart body (the CRLF that precedes a delimiter may or may not have been sent yet).
+fn read_open_multipart(buf: &[u8]) -> Result<Vec<Part>, String> {
+    if buf.is_empty() {
+        return Ok(vec![]);
+    }
+    let mut a = buf.to_vec();
+    a.extend_from_slice(b"--graphql--\r\n");
+    match read_multipart(&a) {
+        Ok(p) => Ok(p),
+        Err(e1) => {
+            let mut b = buf.to_vec();
+            b.extend_from_slice(b"\r\n--graphql--\r\n");
+            read_multipart(&b).map_err(|_| e1)
+        }
+    }
+}
+
+enum PartKind {
+    Heartbeat,
+    Payload(Json),
+}
+
+fn classify(p: &Part) -> Result<PartKind, String> {
+    let ct = p.headers.iter().find(|(n, _)| n == "content-type").map(|(_, v)| v.as_str());
+    match ct {
+        Some(v) if v.split(';').next().unwrap_or("").trim().eq_ignore_ascii_case("application/json") => {}
+        other => return Err(format!("part content-type is {:?}, not application/json", other)),
+    }
+    let v: Json = serde_json::from_slice(&p.body).map_err(|e| format!("part body is not JSON ({}): {:?}", e, String::from_utf8_lossy(&p.body[..p.body.len().min(120)])))?;
+    if v == json!({}) {
+        Ok(PartKind::Heartbeat)
+    } else {
+        Ok(PartKind::Payload(v))
+    }
+}
+
+/// (payload parts, number of heartbeat parts)
+fn split_parts(parts: &[Part]) -> Result<(Vec<Json>, usize), String> {
+    let mut payloads = vec![];
+    let mut hb = 0;
+    for p in parts {
+        match classify(p)? {
+            PartKind::Heartbeat => hb += 1,
+            PartKind::Payload(v) => payloads.push(v),
+        }
+    }
+    Ok((payloads, hb))
+}
+
+// ---------------------------------------------------------------------------------------------------------
+// scripts
+
+#[derive(Clone, Copy, PartialEq, Debug)]
+enum Act {
+    Resp,
+    Tick,
+    End,
+}
+#[derive(Clone, Copy, PartialEq, Debug)]
+enum Polls {
+    N(u8),
+    All,
+}
+#[derive(Clone, Copy, Debug)]
+struct Step {
+    act: Act,
+    polls: Polls,
+}
+
+fn render_script(steps: &[Step]) -> String {
+    let mut out = String::new();
+    for (i, st) in steps.iter().enumerate() {
+        if i > 0 {
+            out.push(' ');
+        }
+        out.push(match st.act {
+            Act::Resp => 'R',
+            Act::Tick => 'T',
+            Act::End => 'E',
+        });
+        match st.polls {
+            Polls::N(0) => {}
+            Polls::N(k) => out.push_str(&format!("+{}", k)),
+            Polls::All => out.push('!'),
+        }
+    }
+    out
+}
+
+struct Outcome {
+    /// None = the property holds on this run
+    failure: Option<String>,
+    /// the body stream finished during the script (before the implicit tail)
+    finished_by_script: bool,
+    responses: usize,
+    ticks: usize,
+    heartbeats: usize,
+    both_pending: bool,
+    heartbeat_first: bool,
+    response_first: bool,
+    partial_polls: bool,
+    body_len: usize,
+}
+
+fn json_of(r: &Response) -> Json {
+    // through text, like a client would read it (floats take the same parser path as the observed parts)
+    serde_json::from_slice(&serde_json::to_vec(r).expect("harness responses are serializable")).unwrap()
+}
+
+fn short(v: &Json) -> String {
+    vcore::drive::truncate(&v.to_string(), 160)
+}
+
+/// one session: the stream under test, what was fed in and what came out
+struct Session<'a> {
+    chan: Chan<Response>,
+    timer: ManualTimer,
+    stream: BoxStream<'a, Bytes>,
+    body: Vec<u8>,
+    finished: bool,
+    expected: Vec<Json>,
+    ticks: usize,
+    ended: bool,
+    /// a completed delay that the stream had not consumed when the end of input became visible (or that
+    /// completed afterwards) may be lost: `select!` is free to take the end-of-input branch first
+    tick_may_be_lost: bool,
+    input_since_quiet: bool,
+    tick_since_quiet: bool,
+    parts_at_quiet: usize,
+    done: Vec<Step>,
+    out: Outcome,
+}
+
+impl<'a> Session<'a> {
+    fn new() -> Session<'a> {
+        let chan: Chan<Response> = Chan::new();
+        let timer = ManualTimer::default();
+        let stream = create_multipart_mixed_stream(chan.rx(), timer.clone(), Duration::from_secs(30));
+        Session {
+            chan,
+            timer,
+            stream,
+            body: vec![],
+            finished: false,
+            expected: vec![],
+            ticks: 0,
+            ended: false,
+            tick_may_be_lost: false,
+            input_since_quiet: false,
+            tick_since_quiet: false,
+            parts_at_quiet: 0,
+            done: vec![],
+            out: Outcome {
+                failure: None,
+                finished_by_script: false,
+                responses: 0,
+                ticks: 0,
+                heartbeats: 0,
+                both_pending: false,
+                heartbeat_first: false,
+                response_first: false,
+                partial_polls: false,
+                body_len: 0,
+            },
+        }
+    }
+
+    /// poll up to `limit` times; Ok(true) if the stream reported Pending (quiescent)
+    fn poll(&mut self, limit: Option<usize>) -> Result<bool, String> {
+        let w = noop_waker();
+        let mut cx = Context::from_waker(&w);
+        let mut n = 0usize;
+        loop {
+            if self.finished || limit.map_or(false, |l| n >= l) {
+                return Ok(false);
+            }
+            match self.stream.as_mut().poll_next(&mut cx) {
+                Poll::Ready(Some(b)) => self.body.extend_from_slice(&b),
+                Poll::Ready(None) => self.finished = true,
+                Poll::Pending => return Ok(true),
+            }
+            n += 1;
+            if n > 100_000 {
+                return Err("body stream produced more than 100000 chunks without becoming pending".into());
+            }
+        }
+    }
+
+    /// one event followed by its polls; Err = property violated
+    fn step(&mut self, step: Step, responses: &mut dyn FnMut(usize) -> Response) -> Result<(), String> {
+        self.done.push(step);
+        match step.act {
+            Act::Resp => {
+                let r = responses(self.expected.len());
+                self.expected.push(json_of(&r));
+                self.chan.push(r);
+                self.input_since_quiet = true;
+            }
+            Act::Tick => {
+                if self.timer.fire() {
+                    self.ticks += 1;
+                    self.tick_since_quiet = true;
+                    if self.ended {
+                        self.tick_may_be_lost = true;
+                    }
+                }
+            }
+            Act::End => {
+                self.ended = true;
+                self.chan.close();
+                self.input_since_quiet = true;
+                if self.timer.fired_unconsumed() {
+                    self.tick_may_be_lost = true;
+                }
+            }
+        }
+        let limit = match step.polls {
+            Polls::N(k) => Some(k as usize),
+            Polls::All => None,
+        };
+        if limit != Some(0) && self.input_since_quiet && self.tick_since_quiet {
+            self.out.both_pending = true;
+        }
+        if matches!(step.polls, Polls::N(k) if k > 0) {
+            self.out.partial_polls = true;
+        }
+        let quiet = self.poll(limit)?;
+        if quiet && !self.finished {
+            self.check_open()?;
+        }
+        Ok(())
+    }
+
+    /// safety at a quiescent point: well framed so far, nothing invented, order kept, not closed
+    fn check_open(&mut self) -> Result<(), String> {
+        let at = render_script(&self.done);
+        let parts = read_open_multipart(&self.body).map_err(|e| format!("after [{}]: the open body is not a well-formed multipart prefix: {}; body={:?}", at, e, String::from_utf8_lossy(&self.body[..self.body.len().min(400)])))?;
+        let (payloads, hb) = split_parts(&parts).map_err(|e| format!("after [{}]: {}", at, e))?;
+        if payloads.len() > self.expected.len() || payloads.iter().zip(&self.expected).any(|(a, b)| a != b) {
+            return Err(format!("after [{}]: payload parts {:?} are not a prefix of the responses fed in", at, payloads.iter().map(short).collect::<Vec<_>>()));
+        }
+        if hb > self.ticks {
+            return Err(format!("after [{}]: {} heartbeat parts after only {} timer expiries", at, hb, self.ticks));
+        }
+        // which of a simultaneously pending response and heartbeat came first (informational)
+        if self.input_since_quiet && self.tick_since_quiet && parts.len() >= self.parts_at_quiet + 2 {
+            match classify(&parts[self.parts_at_quiet]) {
+                Ok(PartKind::Heartbeat) => self.out.heartbeat_first = true,
+                Ok(PartKind::Payload(_)) => self.out.response_first = true,
+                Err(_) => {}
+            }
+        }
+        self.parts_at_quiet = parts.len();
+        self.input_since_quiet = false;
+        self.tick_since_quiet = false;
+        Ok(())
+    }
+
+    /// the complete body against everything that was fed in
+    fn check_complete(&mut self) -> Result<(), String> {
+        let parts = read_multipart(&self.body).map_err(|e| format!("the complete body is not a well-formed multipart/mixed body: {}; body={:?}", e, String::from_utf8_lossy(&self.body[..self.body.len().min(400)])))?;
+        let (payloads, hb) = split_parts(&parts)?;
+        self.out.heartbeats = hb;
+        if payloads != self.expected {
+            let first = payloads.iter().zip(&self.expected).position(|(a, b)| a != b).unwrap_or(payloads.len().min(self.expected.len()));
+            return Err(format!(
+                "payload parts differ from the responses fed in: {} parts for {} responses, first difference at index {}: got {} want {}",
+                payloads.len(),
+                self.expected.len(),
+                first,
+                payloads.get(first).map(short).unwrap_or_else(|| "<missing>".into()),
+                self.expected.get(first).map(short).unwrap_or_else(|| "<none>".into())
+            ));
+        }
+        if hb > self.ticks {
+            return Err(format!("{} heartbeat parts for {} timer expiries", hb, self.ticks));
+        }
+        if hb + (self.tick_may_be_lost as usize) < self.ticks {
+            return Err(format!("{} heartbeat parts for {} timer expiries ({} may be pre-empted by the end of input)", hb, self.ticks, self.tick_may_be_lost as usize));
+        }
+        Ok(())
+    }
+}
+
+/// Runs the script (events after the body stream has finished are not executed), then ends the input if the
+/// script did not, drains the stream and checks the complete body.
+fn run_script(steps: &[Step], responses: &mut dyn FnMut(usize) -> Response) -> Outcome {
+    let mut s = Session::new();
+    let mut res = Ok(());
+    for st in steps {
+        if s.finished || (s.ended && st.act != Act::Tick) {
+            break;
+        }
+        res = s.step(*st, responses);
+        if res.is_err() {
+            break;
+        }
+    }
+    s.out.finished_by_script = s.finished;
+    if res.is_ok() && !s.finished {
+        if !s.ended {
+            res = s.step(Step { act: Act::End, polls: Polls::All }, responses);
+        } else {
+            res = s.poll(None).map(|_| ());
+        }
+        if res.is_ok() && !s.finished {
+            res = Err("the body stream did not finish after the input ended".into());
+        }
+    }
+    if res.is_ok() {
+        res = s.check_complete();
+    }
+    s.out.failure = res.err();
+    s.out.responses = s.expected.len();
+    s.out.ticks = s.ticks;
+    s.out.body_len = s.body.len();
+    s.out
+}
+
+fn to_case(text: String, o: &Outcome) -> Case {
+    let c = match &o.failure {
+        None => Case::pass(text),
+        Some(w) => Case::fail(text, w.clone()),
+    };
+    c.nontrivial(o.responses >= 1 && o.ticks >= 1)
+        .class_if(o.responses >= 2, "responses>=2")
+        .class_if(o.ticks >= 2, "ticks>=2")
+        .class_if(o.both_pending, "tick-and-input-pending-at-a-poll")
+        .class_if(o.heartbeat_first, "simultaneous:heartbeat-first")
+        .class_if(o.response_first, "simultaneous:response-first")
+        .class_if(o.failure.is_none() && o.heartbeats < o.ticks, "tick-pre-empted-by-end")
+        .class_if(o.partial_polls, "partial-polls")
+        .class_if(o.finished_by_script, "finished-by-script")
+        .class_if(o.responses == 0, "no-response")
+}
+
+// ---------------------------------------------------------------------------------------------------------
+// response contents
+
+const NASTY: [&str; 12] = [
+    "\r\n--graphql",
+    "\r\n--graphql--\r\n",
+    "--graphql",
+    "\r\n--graphql\r\nContent-Type: application/json\r\n\r\n{}\r\n",
+    "\r\n\r\n",
+    "\n--graphql--",
+    "\"}\r\n--graphql--\r\n",
+    "\u{2028}\u{2029}\u{85}",
+    "\\r\\n--graphql",
+    "é中😀\u{10ffff}",
+    "\0\u{1}\u{7f}",
+    "{}",
+];
+
+fn gen_text(s: &mut dyn Src) -> String {
+    match s.weighted(&[4, 3, 2]) {
+        0 => gen_string(s, 10),
+        1 => pick(s, &NASTY).to_string(),
+        _ => format!("{}{}{}", gen_string(s, 4), pick(s, &NASTY), gen_string(s, 4)),
+    }
+}
+
+fn gen_gvalue(s: &mut dyn Src, depth: usize) -> GValue {
+    let k = if depth == 0 { s.weighted(&[1, 2, 5, 1, 1]) } else { s.weighted(&[1, 2, 5, 1, 1, 3, 4]) };
+    match k {
+        0 => GValue::Null,
+        1 => {
+            if s.bool() {
+                GValue::from(gen_i64(s))
+            } else {
+                GValue::from(gen_f64_finite(s))
+            }
+        }
+        2 => GValue::String(gen_text(s)),
+        3 => GValue::Boolean(s.bool()),
+        4 => GValue::Enum(Name::new(gen_name(s, 5))),
+        5 => {
+            let n = s.choose(4);
+            GValue::List((0..n).map(|_| gen_gvalue(s, depth - 1)).collect())
+        }
+        _ => {
+            let n = s.choose(4);
+            let mut m = IndexMap::new();
+            for _ in 0..n {
+                // response keys are aliases in practice, but nothing stops a resolver returning any JSON object
+                let key = if s.chance(1, 4) { gen_text(s) } else { gen_name(s, 5) };
+                m.insert(Name::new(key), gen_gvalue(s, depth - 1));
+            }
+            GValue::Object(m)
+        }
+    }
+}
+
+fn gen_response(s: &mut dyn Src) -> Response {
+    let mut r = Response::new(gen_gvalue(s, 3));
+    let nerr = s.weighted(&[6, 2, 1]);
+    for _ in 0..nerr {
+        let mut e = ServerError::new(gen_text(s), if s.bool() { Some(Pos { line: 1 + s.choose(9), column: 1 + s.choose(40) }) } else { None });
+        let np = s.choose(3);
+        for _ in 0..np {
+            e.path.push(if s.bool() { PathSegment::Field(gen_text(s)) } else { PathSegment::Index(s.choose(5)) });
+        }
+        if s.chance(1, 3) {
+            let mut x = ErrorExtensionValues::default();
+            x.set(gen_text(s), gen_gvalue(s, 1));
+            e.extensions = Some(x);
+        }
+        r.errors.push(e);
+    }
+    let next = s.weighted(&[6, 2, 1]);
+    for _ in 0..next {
+        r = r.extension(gen_text(s), gen_gvalue(s, 1));
+    }
+    r
+}
+
+/// fixed contents for the enumerated interleavings (index = position of the response in the script)
+fn fixed_response(i: usize) -> Response {
+    match i % 7 {
+        0 => Response::new(GValue::from_json(json!({"n": 0, "s": "plain"})).unwrap()),
+        1 => Response::new(GValue::from_json(json!({"s": "\r\n--graphql\r\nContent-Type: application/json\r\n\r\n{}\r\n"})).unwrap()),
+        2 => Response::from_errors(vec![ServerError::new("\r\n--graphql--\r\n", Some(Pos { line: 1, column: 2 }))]),
+        3 => Response::new(GValue::Null),
+        4 => Response::new(GValue::from_json(json!({"é中😀": ["\u{2028}", "\n--graphql", 1.5, null, true]})).unwrap()).extension("\r\n--graphql", GValue::String("--graphql--".into())),
+        5 => Response::new(GValue::from_json(json!({})).unwrap()),
+        _ => Response::new(GValue::from_json(json!({"deep": {"a": [{"b": "\r"}, {"c": "\n"}], "d": "\\r\\n--graphql"}})).unwrap()),
+    }
+}
+
+// ---------------------------------------------------------------------------------------------------------
+
+fn enumerate(ctx: &mut Ctx, max_events: usize) -> bool {
+    // depth-first over all event sequences; an event is (R|T|E) x (no poll | one poll | poll until pending).
+    // No R and no second E after E; a prefix after which the body stream has finished is not extended (a
+    // finished stream is never polled again, so every extension behaves like the prefix).
+    let t0 = Instant::now();
+    let polls = [Polls::N(0), Polls::N(1), Polls::All];
+    let mut stack: Vec<Vec<Step>> = vec![vec![]];
+    let mut n = 0u64;
+    while let Some(script) = stack.pop() {
+        let ended = script.iter().any(|s| s.act == Act::End);
+        let o = run_script(&script, &mut |i| fixed_response(i));
+        n += 1;
+        let text = format!("interleaving [{}]", render_script(&script));
+        let c = to_case(text, &o).class("enumerated");
+        if c.is_fail() {
+            // greedy one-event-removal minimisation, then report the small script
+            let mut small = script.clone();
+            loop {
+                let cand = (0..small.len()).map(|i| {
+                    let mut t = small.clone();
+                    t.remove(i);
+                    t
+                });
+                match cand.into_iter().find(|t| run_script(t, &mut |i| fixed_response(i)).failure.is_some()) {
+                    Some(t) => small = t,
+                    None => break,
+                }
+            }
+            let o = run_script(&small, &mut |i| fixed_response(i));
+            let c = to_case(format!("interleaving [{}]", render_script(&small)), &o).class("enumerated");
+            ctx.check_case("interleavings", c, json!({"script": render_script(&small), "found_as": render_script(&script)}));
+            ctx.enumerated("interleavings", n, false, t0);
+            return true;
+        }
+        ctx.check_case("interleavings", c, Json::Null);
+        if script.len() >= max_events || o.finished_by_script {
+            continue;
+        }
+        for act in [Act::Resp, Act::Tick, Act::End] {
+            if ended && act != Act::Tick {
+                continue;
+            }
+            for p in polls {
+                let mut next = script.clone();
+                next.push(Step { act, polls: p });
+                stack.push(next);
+            }
+        }
+    }
+    ctx.enumerated("interleavings", n, true, t0);
+    false
+}
+
+pub fn run(ctx: &mut Ctx) {
+    ctx.rule = "event scripts over {response arrives, heartbeat timer fires, input ends}, each event followed by 0 / k / until-pending polls of the \
+                body stream (the stream is finally drained after an implicit end of input); all scripts up to the bound with fixed nasty contents, \
+                random longer scripts with random contents (CR/LF, `--graphql`, part headers, unicode in values, keys, error messages, paths, extensions); \
+                non-trivial = at least one response and at least one effective timer expiry; distinct by script (and contents)"
+        .into();
+    ctx.assume("the consumer polls the body stream explicitly (spurious polls are legal); wake-up behaviour is not part of the statement and not checked");
+    ctx.assume("a timer expiry while the previous expiry has not been consumed by the stream is the same expiry (one delay future, one heartbeat)");
+    ctx.assume("futures::select! picks among simultaneously ready branches at random: any order of a simultaneously pending response and heartbeat is accepted, and a heartbeat whose delay completed while the end of input was already visible may be omitted");
+    ctx.assume("a part is a heartbeat iff its JSON body is the empty object; a serialized Response always has a `data` member, so no response is `{}`");
+    ctx.assume("payload comparison is JSON-value equality (with key order) between the part body and the response's serde_json text, both read by the same JSON parser");
+    ctx.assume("multipart reader: RFC 2046 grammar with an empty preamble and no epilogue; an open body is well framed if appending the closing delimiter (with or without its leading CRLF) completes it");
+    ctx.assume("responses are JSON-serializable (no Binary values); serialization failure is outside the domain");
+    ctx.assume("the consumer does not drop the body stream before it finishes");
+
+    // reader self-test: the oracle must reject what the statement forbids (guards against a vacuous reader)
+    let good = b"--graphql\r\nContent-Type: application/json\r\n\r\n{\"data\":1}\r\n--graphql\r\ncontent-type: application/json; charset=utf-8\r\n\r\n{}\r\n--graphql--\r\n";
+    let bad: [&[u8]; 6] = [
+        b"--graphql\r\nContent-Type: application/json\r\n\r\n{\"data\":1}--graphql--\r\n",
+        b"--graphql\r\nContent-Type: application/json\r\n\r\n{\"data\":1}\r\n--graphql--\r\n--graphql--\r\n",
+        b"--graphql\r\nContent-Type: application/json\r\n\r\n{\"data\":1}\r\n",
+        b"--graphql\r\nContent-Type: application/json\r\n{\"data\":1}\r\n--graphql--\r\n",
+        b"--graphql\r\nContent-Type: application/json\r\n\r\n{\"data\":1}\r\n--graphql--\r\n--graphql\r\nContent-Type: application/json\r\n\r\n{}\r\n",
+        b"--graphqlX\r\nContent-Type: application/json\r\n\r\n{}\r\n--graphql--\r\n",
+    ];
+    let ok = matches!(read_multipart(good).and_then(|p| split_parts(&p)), Ok((ref p, 1)) if p.len() == 1);
+    let c = if ok && bad.iter().all(|b| read_multipart(b).and_then(|p| split_parts(&p)).is_err()) {
+        Case::pass("reader self-test: 1 good body, 6 malformed bodies")
+    } else {
+        Case::fail("reader self-test", "the harness's multipart reader accepts a malformed body or rejects a good one")
+    };
+    if ctx.check_case("reader-selftest", c.class("selftest"), Json::Null) {
+        return;
+    }
+
+    let bound = ctx.tier.pick(7, 9);
+    ctx.note("enumeration_bound_events", json!(bound));
+    if enumerate(ctx, bound) {
+        return;
+    }
+    ctx.exhaustive = Some(true);
+
+    let n = ctx.tier.pick(60_000, 1_500_000);
+    ctx.stream("random", n, 600, |s| {
+        let len = 1 + s.choose(40);
+        let mut steps = vec![];
+        let mut ended = false;
+        for _ in 0..len {
+            let act = match s.weighted(&[5, 3, if ended { 0 } else { 1 }]) {
+                0 if !ended => Act::Resp,
+                0 | 1 => Act::Tick,
+                _ => {
+                    ended = true;
+                    Act::End
+                }
+            };
+            let polls = match s.weighted(&[4, 3, 2, 1, 1]) {
+                0 => Polls::All,
+                1 => Polls::N(0),
+                2 => Polls::N(1),
+                3 => Polls::N(2),
+                _ => Polls::N(3 + s.choose(4) as u8),
+            };
+            steps.push(Step { act, polls });
+        }
+        let nresp = steps.iter().filter(|x| x.act == Act::Resp).count();
+        let contents: Vec<Response> = (0..nresp).map(|_| gen_response(s)).collect();
+        let rendered: Vec<String> = contents.iter().map(|r| serde_json::to_string(r).unwrap()).collect();
+        let mut it = contents.into_iter();
+        let o = run_script(&steps, &mut |_| it.next().expect("one content per R step"));
+        let text = format!("script [{}] responses {}", render_script(&steps), rendered.join(" | "));
+        let special = rendered.iter().any(|r| r.contains("--graphql"));
+        to_case(text, &o).class("random").class_if(special, "boundary-text-in-content").class_if(o.body_len > 2000, "body>2000B")
+    });
+
+    ctx.floor("tick-and-input-pending-at-a-poll", 1000);
+    ctx.floor("tick-pre-empted-by-end", 20);
+    ctx.floor("partial-polls", 1000);
+    ctx.floor("boundary-text-in-content", 1000);
+    ctx.floor("responses>=2", 1000);
 }
